@@ -6,6 +6,7 @@ pub mod c03;
 pub mod c04;
 pub mod c05;
 pub mod c06;
+pub mod c09;
 
 pub type RunFn = fn(&Ctx) -> Finish;
 pub type ReplayFn = fn(&mut Local, &serde_json::Value) -> Result<(), String>;
@@ -18,6 +19,7 @@ pub fn registry() -> Vec<(&'static str, RunFn, ReplayFn)> {
         ("C04", c04::run as RunFn, c04::replay as ReplayFn),
         ("C05", c05::run as RunFn, c05::replay as ReplayFn),
         ("C06", c06::run as RunFn, c06::replay as ReplayFn),
+        ("C09", c09::run as RunFn, c09::replay as ReplayFn),
     ]
 }
 
